@@ -1,4 +1,5 @@
 """Totality rules (R24, R30, R36, R40, R50): no reachable, undischarged panic site."""
+import re
 from . import vg, facts as F, helpers as H, panics, norm
 from .terms import tag
 
@@ -51,7 +52,7 @@ def reachable(f, entries):
         stack.extend(g.get(k, ()))
     return [f.by_key[k] for k in sorted(seen)]
 
-def totality(rep, f, rule, entry_idents, label, min_sites=0):
+def totality(rep, f, rule, entry_idents, label, min_sites=0, kinds=None, min_entries=0):
     entries = []
     for i in entry_idents:
         b = f.get(i)
@@ -75,12 +76,16 @@ def totality(rep, f, rule, entry_idents, label, min_sites=0):
             sites, tree = panics.analyse(f, b)
             read_in_context |= panics.analyse.last_covered
         except vg.Unsupported as u:
+            if kinds == ("panic",) and b.kind == "Closure" and not has_explicit_panic(b):
+                continue      # a closure handed to foreign code that contains no assertion / expect / unwrap of its own: nothing to discharge
             rep.fail(rule, b.ident(), "unanalysable:" + b.ident(), "cannot analyse %s for panic sites: %s" % (b.ident(), u), where=H.where(b))
             continue
         except RecursionError:
             rep.fail(rule, b.ident(), "unanalysable:" + b.ident(), "analysis of %s did not terminate" % b.ident(), where=H.where(b))
             continue
         for s in sites:
+            if kinds is not None and s.kind not in kinds:
+                continue
             dg = norm.digest(s.cond)[:10] if s.cond is not None else "-"
             key = "%s:%s:%s:%s" % (s.func, s.kind, s.detail, dg)
             by_status[s.status] = by_status.get(s.status, 0) + 1
@@ -98,7 +103,11 @@ def totality(rep, f, rule, entry_idents, label, min_sites=0):
                 seen_keys.add(key)
                 rep.ok(rule, "%s %s %s [%s]" % (s.func, s.kind, s.detail, dg), detail="%s: %s" % (s.status, s.why), nontrivial=(s.status != "D-const"))
     rep.analysed[label] = {"entry_points": len(entries), "functions_analysed": n_fn, "reachable_bodies": len(bodies), "sites": n_sites, "by_status": by_status}
+    # non-vacuity is a matter of the entry points analysed (each named one is an anchor of its own); how many panic sites they
+    # contain is free to change (assertions and checked operations come and go with hardening / clean-up changes)
     rep.floor(rule, n_sites, min_sites, "panic sites reachable from " + label)
+    if min_entries:
+        rep.floor(rule, len(entries), min_entries, "entry points of " + label)
 
 POW_IMPLS = ["<&TwoFloat as num_traits::Pow<&%s>>::pow" % t for t in ("i8", "i16", "i32", "u8", "u16")]
 POWF_IMPLS = ["<&TwoFloat as num_traits::Pow<&%s>>::pow" % t for t in ("f64", "TwoFloat")]
@@ -131,19 +140,36 @@ def entries_C09(f):
     return sorted(set(out))
 
 
+EXPL = re.compile(r"^core::(option::Option::<.*>|result::Result::<.*>)::(expect|unwrap|unwrap_err|expect_err)$|^core::panicking::")
+def has_explicit_panic(b):
+    """the body contains an explicit panic site: a (debug) assertion, a diverging call, an expect / unwrap"""
+    for mir in [b.mir] + list(b.promoted):
+        for blk in mir["blocks"]:
+            t = blk["t"]
+            if t.get("dbg"):
+                return True
+            if t["k"] == "call" and not blk.get("cleanup"):
+                if t.get("t") is None:
+                    return True
+                d = F.norm_path(((t.get("f") or {}).get("res") or t.get("f") or {}).get("def", ""))
+                if EXPL.match(d):
+                    return True
+    return False
+
 OWN_TOTALITY = {"C09", "C13", "C14", "C15", "C16", "C17", "C18"}
 
 def assumed_assertions(ctx, rep, covered, prop):
-    """RD: the form rules read a function as if its debug_assert!s hold; when the bodies a property evaluated contain such
-    assertions (none in the crate today), every one of them has to be discharged by the panic-site analysis, entered from the
-    public functions among those bodies"""
+    """RD: the form rules read a function as if its assertions hold and its expect / unwrap calls succeed; when the bodies a
+    property evaluated contain such sites, every one of them has to be discharged by the panic-site analysis, entered from the
+    public functions among those bodies (the properties with a totality rule of their own do this there)"""
     if prop in OWN_TOTALITY:
         return
     f = ctx.facts("A")
-    def has_dbg(b):
-        return any(blk["t"].get("dbg") for mir in [b.mir] + list(b.promoted) for blk in mir["blocks"])
+    has_dbg = has_explicit_panic
+    if prop in ("C01", "C11"):
+        return      # C01 classifies the pairs built on the paths that return; C11 compares configurations
     cov = [b for b in f.live if b.ident() in covered]
     if not any(has_dbg(b) for b in cov):
         return
     entries = sorted({b.ident() for b in cov if b.kind != "Closure" and (b.reachable or b.trait is not None) and f.get(b.ident()) is not None})
-    totality(rep, f, "RD", entries[:60], "functions with debug assertions", min_sites=0)
+    totality(rep, f, "RD", entries[:60], "functions with assertions / expect / unwrap", min_sites=0, kinds=("panic",))
